@@ -2,82 +2,151 @@
 (***************************************************************************)
 (* Design-level state machine for C11.  One abstract model of kind         *)
 (*   Kind = "pit" : a PIT model with shared / frozen masks                 *)
-(*   Kind = "mps" : an MPS model (all its live quantisers move together)   *)
-(*   Kind = "sn"  : a SuperNet model (all its combiners move together)     *)
-(* The two halves of the control state are independent in the code (PIT    *)
-(* has no sampling options, MPS/SuperNet no mask switches), so each kind   *)
-(* is explored to closure on its own and EVERY edge of the dumped graph is *)
-(* executed on a real model by harness/checks/c11.py.                      *)
+(*   Kind = "mps" : an MPS model                                           *)
+(*   Kind = "sn"  : a SuperNet model                                       *)
+(* in one of two granularities:                                            *)
+(*   Hetero = FALSE : one representative object per parameter class, one   *)
+(*                    option block (all layers move together; only         *)
+(*                    model-level calls)                                   *)
+(*   Hetero = TRUE  : PER-LAYER state: several layers with their own mask  *)
+(*                    objects and discrete_cost switch, two option blocks  *)
+(*                    (quantisers / combiners) whose options may differ    *)
+(*                    (different constructor options per SuperNetModule,   *)
+(*                    per-layer / per-quantiser calls between model-level  *)
+(*                    calls).  Model-level calls must be POINTWISE.        *)
+(* Part restricts the alphabet to the trainability half ("ctl"), the       *)
+(* sampling-option half ("opt") or both ("all"); the two halves are        *)
+(* independent in the code.  Dims restricts the PIT switches of a          *)
+(* heterogeneous configuration (objects and calls of the other switches    *)
+(* are left out), HOpts the option names of a heterogeneous configuration. *)
+(* Every configuration is explored to closure and EVERY edge of the dumped *)
+(* graph is executed on a real model by harness/checks/c11.py.             *)
 (*                                                                         *)
 (* Actions carry their arguments (they appear in the edge labels of the    *)
-(* dump): Train(g), SetFlag(f, v), Upd(o, v), Sel(v), FwdBwd.              *)
+(* dump): Train(g), SetFlag(f, v), LFlag(l, f, v), Upd(o, v),              *)
+(* LUpd(b, o, v), Sel(v), LSel(b, v), FwdBwd.                              *)
 (***************************************************************************)
 EXTENDS NasControl, TLC
 
-CONSTANTS Impl,     \* "fixed" | "pinned"
+CONSTANTS Impl,     \* "fixed" | "pinned" | "bcast1"
           Kind,     \* "pit" | "mps" | "sn"
-          Temps     \* temperatures x 1000 (contains 1000, the initial one)
+          Temps,    \* temperatures x 1000 (contains 1000, the initial one)
+          Hetero,   \* BOOLEAN
+          Part,     \* "all" | "ctl" | "opt"
+          Dims,     \* subset of PitFlags (heterogeneous PIT)
+          HOpts     \* subset of {"temp","hard","gumbel","disable"} (heterogeneous MPS / SuperNet)
 
 VARIABLES rg, flags, opt
 vars == <<rg, flags, opt>>
 
-Cls == ClsOf(Kind)
+(***************************************************************************)
+(* Objects: [n = name, c = class, l = owning layers, q = owning block]     *)
+(***************************************************************************)
+Obj(n, c, l, q) == [n |-> n, c |-> c, l |-> l, q |-> q]
+HomObjs == {Obj(c, c, {}, 0) : c \in ClsOf(Kind)}
+\* heterogeneous PIT: layer A (own masks), layer B (feature mask shared with a sibling, own time masks),
+\* layer F1 (strided Conv1d: frozen time masks), layer F2 (output head: frozen feature mask)
+PitHetObjs ==
+    {Obj("w", "w", {}, 0)} \cup
+    {o \in {Obj("alpha_A", "alpha", {"A"}, 0), Obj("alphaS_B", "alphaS", {"B"}, 0), Obj("alphaF_F2", "alphaF", {"F2"}, 0),
+            Obj("beta_A", "beta", {"A"}, 0), Obj("beta_B", "beta", {"B"}, 0), Obj("betaF_F1", "betaF", {"F1"}, 0),
+            Obj("gamma_A", "gamma", {"A"}, 0), Obj("gamma_B", "gamma", {"B"}, 0), Obj("gammaF_F1", "gammaF", {"F1"}, 0),
+            Obj("dc_A", "dc", {"A"}, 0), Obj("dc_B", "dc", {"B"}, 0)} : DimOf(o.c) \in Dims}
+SnHetObjs == {Obj("w", "w", {}, 0), Obj("snalpha_1", "snalpha", {}, 1), Obj("snalpha_2", "snalpha", {}, 2)}
+Objs == IF ~Hetero THEN HomObjs
+        ELSE IF Kind = "pit" THEN PitHetObjs
+        ELSE IF Kind = "sn" THEN SnHetObjs
+        ELSE HomObjs
+Names == {o.n : o \in Objs}
+O(n)  == CHOOSE o \in Objs : o.n = n
+Layers == UNION {o.l : o \in Objs}
+
+NB == IF Hetero /\ Kind # "pit" THEN 2 ELSE 1
+Blocks == 1..NB
+\* blocks that can be addressed individually: one deviating quantiser of an MPS model, both SuperNet combiners
+LBlocks == IF ~Hetero THEN {} ELSE IF Kind = "mps" THEN {1} ELSE IF Kind = "sn" THEN {1, 2} ELSE {}
 
 NoFlags == [f \in PitFlags |-> TRUE]
-NoOpt   == [temp |-> 1000, hard |-> FALSE, gumbel |-> FALSE, disable |-> FALSE, sampler |-> "sm"]
-
+OptRec(t, h, g, d) == [temp |-> t, hard |-> h, gumbel |-> g, disable |-> d, sampler |-> Sampler(g, d)]
 Opts == [temp : Temps, hard : BOOLEAN, gumbel : BOOLEAN, disable : BOOLEAN, sampler : {"sm", "gs", "none"}]
 
-TypeOK == /\ rg \in [Cls -> BOOLEAN]
+TypeOK == /\ rg \in [Names -> BOOLEAN]
           /\ flags \in [PitFlags -> BOOLEAN]
-          /\ opt \in Opts
+          /\ opt \in [Blocks -> Opts]
+
+Ctl  == Part \in {"all", "ctl"}
+Optn == Part \in {"all", "opt"}
+OptNames == (IF Kind = "mps" THEN {"temp", "hard", "gumbel", "disable"}
+             ELSE IF Kind = "sn" THEN {"temp", "hard"} ELSE {})
+            \cap (IF Hetero THEN HOpts ELSE {"temp", "hard", "gumbel", "disable"})
+OptVals(o) == IF o = "temp" THEN Temps ELSE {0, 1}
 
 (***************************************************************************)
 (* Initial states = what the constructors produce for every combination of *)
-(* their boolean arguments.                                                *)
+(* their boolean arguments (per SuperNetModule for a heterogeneous         *)
+(* SuperNet).                                                              *)
 (***************************************************************************)
+InitRg(f0) == [n \in Names |-> LET c == O(n).c IN
+                 IF Frozen(c) THEN FALSE
+                 ELSE IF c = "dc" THEN f0["dc"]
+                 ELSE IF c \in PitFreeCls THEN f0[FlagOf(c)] ELSE TRUE]
 Init ==
     IF Kind = "pit" THEN
-        /\ flags \in [PitFlags -> BOOLEAN]         \* PIT(train_features=, train_rf=, train_dilation=, discrete_cost=)
-        /\ rg = [c \in Cls |-> IF Frozen(c) THEN FALSE
-                               ELSE IF c \in PitFreeCls THEN flags[FlagOf(c)] ELSE TRUE]
-        /\ opt = NoOpt
+        /\ \E f0 \in [PitFlags -> BOOLEAN] :        \* PIT(train_features=, train_rf=, train_dilation=, discrete_cost=)
+              /\ (Hetero => \A f \in PitFlags \ Dims : f0[f])
+              /\ flags = (IF Hetero THEN NoFlags ELSE f0)   \* getter memory is tracked in the class-level machine only
+              /\ rg = InitRg(f0)
+        /\ opt = [k \in Blocks |-> OptRec(1000, FALSE, FALSE, FALSE)]
     ELSE IF Kind = "mps" THEN
         /\ flags = NoFlags
-        /\ rg = [c \in Cls |-> TRUE]
-        /\ \E h, g, d \in BOOLEAN :                \* MPS(hard_softmax=, gumbel_softmax=, disable_sampling=)
-              opt = [temp |-> 1000, hard |-> h, gumbel |-> g, disable |-> d, sampler |-> Sampler(g, d)]
+        /\ rg = [n \in Names |-> TRUE]
+        /\ \E h \in BOOLEAN :                       \* MPS(hard_softmax=, gumbel_softmax=, disable_sampling=): one value per model
+           \E g \in (IF Hetero /\ "gumbel" \notin HOpts THEN {FALSE} ELSE BOOLEAN) :
+           \E d \in (IF Hetero /\ "disable" \notin HOpts THEN {FALSE} ELSE BOOLEAN) :
+              opt = [k \in Blocks |-> OptRec(1000, h, g, d)]
     ELSE
         /\ flags = NoFlags
-        /\ rg = [c \in Cls |-> TRUE]               \* SuperNet.__init__ sets train_selection = True
-        /\ \E h, g \in BOOLEAN :                   \* SuperNetModule(gumbel_softmax=, hard_softmax=)
-              opt = [temp |-> 1000, hard |-> h, gumbel |-> g, disable |-> FALSE, sampler |-> Sampler(g, FALSE)]
+        /\ rg = [n \in Names |-> TRUE]             \* SuperNet.__init__ sets train_selection = True
+        /\ \E hs, gs \in [Blocks -> BOOLEAN] :      \* SuperNetModule(gumbel_softmax=, hard_softmax=) PER BLOCK
+              opt = [k \in Blocks |-> OptRec(1000, hs[k], gs[k], FALSE)]
 
 Step(a) ==
-    /\ rg'    = [c \in Cls |-> NextRg(Impl, c, Group(c), rg[c], a)]
-    /\ flags' = NextFlags(flags, a)
-    /\ opt'   = NextOpt(Impl, Kind, opt, a)
+    /\ rg'    = [n \in Names |-> NextRg(Impl, O(n).c, Group(O(n).c), O(n).l, O(n).q, rg[n], a)]
+    /\ flags' = IF Hetero THEN flags ELSE NextFlags(flags, a)
+    /\ opt'   = [k \in Blocks |-> NextOptOf(Impl, Kind, opt, k, a)]
 
 UpdArg(o, v) == [a |-> "upd",
                  temp    |-> IF o = "temp" THEN v ELSE NoT,
                  hard    |-> IF o = "hard" THEN v ELSE NoB,
                  gumbel  |-> IF o = "gumbel" THEN v ELSE NoB,
                  disable |-> IF o = "disable" THEN v ELSE NoB]
+LUpdArg(b, o, v) == [a |-> "lupd", b |-> b,
+                     temp    |-> IF o = "temp" THEN v ELSE NoT,
+                     hard    |-> IF o = "hard" THEN v ELSE NoB,
+                     gumbel  |-> IF o = "gumbel" THEN v ELSE NoB,
+                     disable |-> IF o = "disable" THEN v ELSE NoB]
 
-OptNames == IF Kind = "mps" THEN {"temp", "hard", "gumbel", "disable"}
-            ELSE IF Kind = "sn" THEN {"temp", "hard"} ELSE {}
-OptVals(o) == IF o = "temp" THEN Temps ELSE {0, 1}
+Train(g)       == Ctl /\ Step([a |-> "train", g |-> g])
+SetFlag(f, v)  == Kind = "pit" /\ Ctl /\ (Hetero => f \in Dims) /\ Step([a |-> "flag", f |-> f, v |-> v])
+LFlag(l, f, v) == /\ Kind = "pit" /\ Hetero /\ Ctl /\ f \in Dims
+                  /\ \E o \in Objs : l \in o.l /\ DimOf(o.c) = f
+                  /\ Step([a |-> "lflag", l |-> l, f |-> f, v |-> v])
+Upd(o, v)      == Optn /\ o \in OptNames /\ v \in OptVals(o) /\ Step(UpdArg(o, v))
+LUpd(b, o, v)  == /\ Optn /\ b \in LBlocks /\ o \in OptNames /\ v \in OptVals(o)
+                  /\ Step(LUpdArg(b, o, v))
+Sel(v)         == Kind = "sn" /\ Ctl /\ Step([a |-> "sel", v |-> v])
+LSel(b, v)     == Kind = "sn" /\ Hetero /\ Ctl /\ b \in LBlocks /\ Step([a |-> "lsel", b |-> b, v |-> v])
+\* forward + backward of loss + cost: no control state changes (left out of the pure option machines)
+FwdBwd         == ~(Hetero /\ Part = "opt") /\ Step([a |-> "fwdbwd"])
 
-Train(g)      == Step([a |-> "train", g |-> g])
-SetFlag(f, v) == Kind = "pit" /\ Step([a |-> "flag", f |-> f, v |-> v])
-Upd(o, v)     == o \in OptNames /\ v \in OptVals(o) /\ Step(UpdArg(o, v))
-Sel(v)        == Kind = "sn" /\ Step([a |-> "sel", v |-> v])
-FwdBwd        == Step([a |-> "fwdbwd"])            \* forward + backward of loss + cost: no control state changes
-
+AllOpt == {"temp", "hard", "gumbel", "disable"}
 Next == \/ \E g \in TrainGroups : Train(g)
         \/ \E f \in PitFlags, v \in BOOLEAN : SetFlag(f, v)
-        \/ \E o \in {"temp", "hard", "gumbel", "disable"} : \E v \in OptVals(o) : Upd(o, v)
+        \/ \E l \in Layers, f \in PitFlags, v \in BOOLEAN : LFlag(l, f, v)
+        \/ \E o \in AllOpt : \E v \in OptVals(o) : Upd(o, v)
+        \/ \E b \in Blocks, o \in AllOpt : \E v \in OptVals(o) : LUpd(b, o, v)
         \/ \E v \in BOOLEAN : Sel(v)
+        \/ \E b \in Blocks, v \in BOOLEAN : LSel(b, v)
         \/ FwdBwd
 
 Spec == Init /\ [][Next]_vars
@@ -85,12 +154,14 @@ Spec == Init /\ [][Next]_vars
 (***************************************************************************)
 (* State invariants                                                        *)
 (***************************************************************************)
+BlockOf(n) == IF O(n).q # 0 THEN O(n).q ELSE 1
 \* masks frozen by construction never become trainable ...
-FrozenNeverTrainable == \A c \in Cls : Frozen(c) => ~rg[c]
+FrozenNeverTrainable == \A n \in Names : Frozen(O(n).c) => ~rg[n]
 \* ... and never receive a gradient from the loss or the cost (in any state, i.e. whenever FwdBwd is run)
-FrozenNeverGrad == \A c \in Cls : Frozen(c) => ~GradExpected(c, rg[c], opt.sampler, opt.hard)
-\* the sampler that runs is the one the options (as the user set them) select
-SamplerConsistent == opt.sampler = Sampler(opt.gumbel, opt.disable)
+FrozenNeverGrad == \A n \in Names : Frozen(O(n).c) =>
+                      ~GradExpected(O(n).c, rg[n], opt[BlockOf(n)].sampler, opt[BlockOf(n)].hard)
+\* the sampler that runs is the one the options (as the user set them) select, in every block
+SamplerConsistent == \A k \in Blocks : opt[k].sampler = Sampler(opt[k].gumbel, opt[k].disable)
 
 (***************************************************************************)
 (* Reporting structure of the abstract model: nas/net lists partition the  *)
@@ -116,28 +187,58 @@ NoDedupIsNotPartition == Kind \in {"pit", "mps"} => ~NoDup(Concat(NasLists, 1))
 (***************************************************************************)
 (* Action properties (post-conditions and frame conditions of the calls)   *)
 (***************************************************************************)
-\* train_* make exactly the named group trainable (frozen masks excepted: they stay as they are)
+\* train_* make exactly the named group trainable (frozen masks excepted: they stay as they are);
+\* no discrete_cost switch, flag or option moves
 TrainExact ==
     [][\A g \in TrainGroups : Train(g) =>
-          /\ \A c \in Cls : ~Frozen(c) => rg'[c] = Want(g, Group(c))
+          /\ \A n \in Names : (~Frozen(O(n).c) /\ O(n).c # "dc") => rg'[n] = Want(g, Group(O(n).c))
+          /\ \A n \in Names : O(n).c = "dc" => rg'[n] = rg[n]
           /\ flags' = flags /\ opt' = opt]_vars
 
-\* a PIT switch drives exactly the masks it names and nothing else
+\* a model-level PIT switch drives exactly the objects it names, in EVERY layer, and nothing else
 SetterExact ==
     [][\A f \in PitFlags, v \in BOOLEAN : SetFlag(f, v) =>
-          /\ flags'[f] = v
-          /\ \A h \in PitFlags \ {f} : flags'[h] = flags[h]
-          /\ \A c \in Cls : rg'[c] = IF f # "dc" /\ FlagOf(c) = f /\ ~Frozen(c) THEN v ELSE rg[c]
+          /\ (~Hetero => flags'[f] = v /\ \A h \in PitFlags \ {f} : flags'[h] = flags[h])
+          /\ \A n \in Names : rg'[n] = IF DimOf(O(n).c) = f /\ ~Frozen(O(n).c) THEN v ELSE rg[n]
           /\ opt' = opt]_vars
 
-\* changing one sampling option leaves the unspecified ones as they were
+\* a per-layer PIT switch drives the objects of that layer only
+LayerSetterExact ==
+    [][\A l \in Layers, f \in PitFlags, v \in BOOLEAN : LFlag(l, f, v) =>
+          /\ \A n \in Names : rg'[n] = IF DimOf(O(n).c) = f /\ ~Frozen(O(n).c) /\ l \in O(n).l THEN v ELSE rg[n]
+          /\ flags' = flags /\ opt' = opt]_vars
+
+\* SuperNet selection switches: model-level = every block, per-block = that block
+SelExact ==
+    [][/\ \A v \in BOOLEAN : Sel(v) =>
+             \A n \in Names : rg'[n] = IF O(n).c = "snalpha" THEN v ELSE rg[n]
+       /\ \A b \in Blocks, v \in BOOLEAN : LSel(b, v) =>
+             \A n \in Names : rg'[n] = IF O(n).c = "snalpha" /\ O(n).q = b THEN v ELSE rg[n]]_vars
+
+\* changing one sampling option: EVERY block gets the named option, and every OTHER option of EVERY
+\* block stays as it was in that block
 OthersKept ==
-    [][\A o \in OptNames : \A v \in OptVals(o) : Upd(o, v) =>
-          /\ SpecifiedSet(Kind, opt, opt', UpdArg(o, v))
-          /\ UnspecifiedKept(Kind, opt, opt', UpdArg(o, v))
-          /\ (o # "gumbel" => opt'.gumbel = opt.gumbel)
-          /\ (o # "disable" => opt'.disable = opt.disable)
+    [][\A o \in AllOpt : \A v \in OptVals(o) : Upd(o, v) =>
+          /\ \A k \in Blocks :
+                /\ SpecifiedSet(Kind, opt[k], opt'[k], UpdArg(o, v))
+                /\ UnspecifiedKept(Kind, opt[k], opt'[k], UpdArg(o, v))
+                /\ (o # "gumbel" => opt'[k].gumbel = opt[k].gumbel)
+                /\ (o # "disable" => opt'[k].disable = opt[k].disable)
+          /\ rg' = rg /\ flags' = flags]_vars
+
+\* an update addressed to one block leaves the other blocks alone
+LocalUpdate ==
+    [][\A b \in Blocks, o \in AllOpt : \A v \in OptVals(o) : LUpd(b, o, v) =>
+          /\ SpecifiedSet(Kind, opt[b], opt'[b], UpdArg(o, v))
+          /\ UnspecifiedKept(Kind, opt[b], opt'[b], UpdArg(o, v))
+          /\ \A k \in Blocks \ {b} : opt'[k] = opt[k]
           /\ rg' = rg /\ flags' = flags]_vars
 
 ObserverNeutral == [][FwdBwd => UNCHANGED vars]_vars
+
+\* non-vacuity of the heterogeneous configurations: some reachable state has blocks / layers that differ
+\* (checked through the expected-to-fail config NasControlMC_*_homog.cfg)
+AlwaysHomogeneous ==
+    /\ \A j, k \in Blocks : opt[j].temp = opt[k].temp /\ opt[j].hard = opt[k].hard /\ opt[j].disable = opt[k].disable
+    /\ \A m, n \in Names : (O(m).c = O(n).c) => rg[m] = rg[n]
 =============================================================================
